@@ -12,6 +12,7 @@ import Driver.OpParseB
 import Driver.OpExpand
 import Driver.OpJBody
 import Driver.OpGohcl
+import Driver.OpParseX
 open HclModel
 
 structure St where
@@ -74,6 +75,7 @@ def handle (st : St) (line : String) : St × String :=
   else if line.startsWith "EXPAND " then (st, expandLine (line.drop 7).toString)
   else if line.startsWith "JBODY " then (st, jbodyLine (line.drop 6).toString)
   else if line.startsWith "GOHCL " then (st, gohclLine (line.drop 6).toString)
+  else if line.startsWith "PARSEX " then (st, parsexLine (line.drop 7).toString)
   else if line.startsWith "EVAL " then
     match Sexp.parseMany (line.drop 5).toString with
     | some [e, env] => (st, evalLine e env)
